@@ -200,19 +200,19 @@ pub fn coverage_obs(c: &CoverageTable, w: &mut Walker) {
     let mut first: Vec<u16> = vec![];
     // a format-2 table may legitimately enumerate 65536 ids per range record (output-bound by
     // design), so iteration is step-capped and no count is demanded
-    let lim = 4096u64;
+    let lim = 512u64;
     for g in c.iter() {
         n += 1;
         w.h.u64(g.to_u16() as u64);
         if first.len() < 24 {
             first.push(g.to_u16());
         }
-        if n >= lim || (n & 0xFFF == 0 && !w.step()) {
+        if n >= lim {
             break;
         }
     }
     w.calls += n;
-    w.nodes += n / 16;
+    w.nodes += n;
     w.u(n);
     first.extend([0, 1, 0xFFFE, 0xFFFF]);
     for g in first {
@@ -234,19 +234,19 @@ pub fn coverage_obs(c: &CoverageTable, w: &mut Walker) {
 pub fn classdef_obs(c: &ClassDef, w: &mut Walker) {
     let mut n = 0u64;
     let mut first: Vec<u16> = vec![];
-    let lim = 4096u64;
+    let lim = 512u64;
     for (g, cls) in c.iter() {
         n += 1;
         w.h.u64(((g.to_u16() as u64) << 16) | cls as u64);
         if first.len() < 24 {
             first.push(g.to_u16());
         }
-        if n >= lim || (n & 0xFFF == 0 && !w.step()) {
+        if n >= lim {
             break;
         }
     }
     w.calls += n;
-    w.nodes += n / 16;
+    w.nodes += n;
     w.u(n);
     first.extend([0, 1, 0xFFFE, 0xFFFF]);
     for g in first {
@@ -314,8 +314,8 @@ fn chain_context_obs(c: &read_fonts::tables::layout::ChainedSequenceContext, w: 
     }
 }
 
-const MAX_LOOKUPS: usize = 64;
-const MAX_SUBTABLES: usize = 16;
+const MAX_LOOKUPS: usize = 48;
+const MAX_SUBTABLES: usize = 6;
 
 fn gsub_obs(data: &[u8], w: &mut Walker) {
     use read_fonts::tables::gsub::{Gsub, SubstitutionSubtables as SS};
@@ -604,7 +604,7 @@ pub fn name_driver(data: &[u8], _ctx: &[Vec<u8>], _a: [u32; 3], w: &mut Walker) 
                     }
                 }
                 w.calls += n;
-                w.nodes += n / 16;
+                w.nodes += n;
                 w.u(n);
                 let disp = s.to_string();
                 w.u(disp.len() as u64);
